@@ -29,6 +29,7 @@ Import ListNotations.
 From KV Require Import Base.Bytes Base.Num Base.Flt Model.Ast Model.Value Model.Eval Model.EvalVec
                        Model.Checker Spec.Typing Proofs.CheckerProofs
                        Proofs.TypeSafety2Proofs Proofs.TypeSafetyVecProofs.
+From KV Require Model.Fold Model.FoldStmt Model.Pipeline.
 
 Fixpoint expr_eqb (a b : expr) {struct a} : bool :=
   let list_eqb :=
@@ -177,6 +178,31 @@ Definition check_tree (store : list (bytes * bytes)) (e : expr) (t : evtree) : n
         (et_batches t) in
   worst14 (rows ++ batches).
 
+(* (e) the FOLDED trees (harness/c14fold.go: EvTree entries with index 1000 + i).  The twin of what
+   the plan evaluates is FoldStmt.exec_tree of the checked tree (Fold.fold plus the in-place state
+   of the definitions references point to); the premises are those of the CHECKED tree
+   (fold_keeps_type_safety: they carry over to the folded tree in their weak form); outcome classes
+   are read off the data-dependent sites of the folded tree (a divisor folded to a literal
+   reports the offset of the literal).  99 where the folder reaches a constant sub-tree the
+   evaluator twin cannot evaluate (Pipeline.fold_oom). *)
+Definition fold_base : nat := 1000.
+
+Definition check_tree_folded (store : list (bytes * bytes)) (e : expr) (t : evtree) : nat :=
+  if Pipeline.fold_oom prim_fops re_oom14 Fold.pf_fmt_v e then 99
+  else
+    let ef := FoldStmt.exec_tree prim_fops re_oom14 Fold.pf_fmt_v e in
+    let prem := t1_prem e in
+    let rows := zip_with (fun kv o => judge prem (res_class ef (eval prim_fops re_oom14 (fst kv) (snd kv) ef))
+                                                 (obs_class ef o)) store (et_rows t) in
+    let batches :=
+      map (fun bo : nat * list t1obs =>
+             let B := Nat.max 1 (fst bo) in
+             worst14 (zip_with (fun ch o => judge prem (res_class ef (eval_batch prim_fops re_oom14 true ef ch))
+                                                        (obs_class ef o))
+                               (chunks_of (List.length store) B store) (snd bo)))
+          (et_batches t) in
+    worst14 (rows ++ batches).
+
 Definition trees_of (s2 : stmt) : list expr :=
   match s2 with
   | SSelect f2 w2 _ => w2 :: map snd f2
@@ -215,7 +241,13 @@ Definition check_evals (c : case) : nat :=
       match build_check prim_fops true (cstmt c) with
       | Ok s2 =>
           let trees := trees_of s2 in
-          worst14 (map (fun t => match nth_error trees (et_idx t) with
+          worst14 (map (fun t => if Nat.leb fold_base (et_idx t)
+                                 then match nth_error trees (et_idx t - fold_base) with
+                                      | Some e => check_tree_folded (obs_store c) e t
+                                      | None => 1
+                                      end
+                                 else
+                                 match nth_error trees (et_idx t) with
                                  | Some e => check_tree (obs_store c) e t
                                  | None => 1
                                  end) evs)
